@@ -198,7 +198,7 @@ package redis
 //@   requires readerRI(b)
 //@   modifies b.r, b.w, b.err, b.buf[0:len(b.buf)]
 //@   ensures @ri readerRI(b) && b.buf == old(b.buf)
-//@   ensures @line result1 == nil ==> len(result0) >= 1 && base(result0) == base(b.buf)
+//@   ensures @line result1 == nil ==> len(result0) >= 1 && len(result0) <= len(b.buf) && base(result0) == base(b.buf)
 //@   ensures @full-or-error result1 != nil ==> (len(result0) == 0 || result0 == b.buf)
 //@   ensures @error-kind result1 != nil ==> (result1 == bufio.ErrBufferFull && result0 == b.buf) || (b.err != nil && result1 == b.err && isnil(result0))
 //@   loop 0 invariant readerRI(b) && b.buf == old(b.buf)
